@@ -100,6 +100,13 @@ def run(ctx):
     big.append(fc.record(data, "bytes", 0, 0, rng, len(lens) + 2, "trim-21MB-bytes"))
     if not q:
         big.append(fc.record(data, "sock", 0, 0, rng, len(lens) + 2, "trim-21MB-sock"))
+    # a stream long enough for the buffer to be trimmed more than once (the second trim starts from a trimmed buffer)
+    lens3 = [65536] * 1000
+    data3 = _mk_stream(rng, packets, lens3, 0)
+    big.append(fc.record(data3, "file", 1 << 22, 0, rng, len(lens3) + 2, "trim-65MB-file"))
+    if not q:
+        big.append(fc.record(data3, "bytes", 0, 0, rng, len(lens3) + 2, "trim-65MB-bytes"))
+    del data3
     ntrim = sum(1 for r in big for e in r[4] if e["ev"] == "trim")
     ctx.extra["trim_events_observed"] = ntrim
     if ntrim == 0:
